@@ -1405,6 +1405,54 @@ fn start_watchdog(seed: u64, shard: u64) {
     });
 }
 
+// ------------------------------------------------------------------------------------------
+// three-point lines with MIXED magnitudes: a long axis-parallel chord (length m*2^e, e up to 27) and a middle
+// vertex a tiny distance off it (m'*2^e', e' down to -60). The exact distance of the middle vertex from the
+// chord is |off| and its triangle has area chord*|off|/2 (one rounding): with eps a factor 2 above or below,
+// "drop" and "keep" are not a matter of tolerance. Nothing absolute (an epsilon, a snap) may enter the decision.
+// ------------------------------------------------------------------------------------------
+pub fn check_mixed3(sh: &mut Shard, xs: [(i64, i32); 3], off: (i64, i32), vertical: bool, verbose: bool) {
+    use geo::LineString;
+    let f = |(m, e): (i64, i32)| m as f64 * crate::q::pow2(e);
+    let (x0, x1, x2, o) = (f(xs[0]), f(xs[1]), f(xs[2]), f(off));
+    if !(x0 < x1 && x1 < x2) || o == 0.0 {
+        return;
+    }
+    let c = |x: f64, y: f64| if vertical { Coord { x: y, y: x } } else { Coord { x, y } };
+    let pts = vec![c(x0, 0.0), c(x1, o), c(x2, 0.0)];
+    let ls = LineString::new(pts.clone());
+    let area = (x2 - x0) * o.abs() * 0.5;
+    let det = |check: &str, op: &str, eps: f64, exp: &str, got: String| json!({"property": "C09", "check": check, "kind": "mixed3", "xs": xs, "off": [off.0, off.1], "vertical": vertical,
+        "op": op, "eps": eps, "line": format!("{:?}", pts), "expected": exp, "got": got});
+    let all: Vec<usize> = vec![0, 1, 2];
+    let ends: Vec<usize> = vec![0, 2];
+    let mut judge = |sh: &mut Shard, check: &str, op: &str, eps: f64, keep: bool, got: Result<Vec<usize>, String>| {
+        sh.eval(1);
+        let want = if keep { &all } else { &ends };
+        match got {
+            Ok(g) if &g == want => {}
+            Ok(g) => {
+                if verbose {
+                    println!("{op}({eps:e}): expected {:?} got {:?}", want, g);
+                }
+                sh.violation(&format!("{check}|{op}|-"), det(check, op, eps, &format!("vertices {:?} kept (middle vertex is {:e} off the chord, its triangle has area {:e})", want, o.abs(), area), format!("{:?}", g)))
+            }
+            Err(m) => sh.violation(&format!("panic|{op}|-"), det("panic", op, eps, "no panic", m)),
+        }
+    };
+    let pos = |out: &LineString<f64>| -> Vec<usize> { out.0.iter().filter_map(|q| pts.iter().position(|p| p.x.to_bits() == q.x.to_bits() && p.y.to_bits() == q.y.to_bits())).collect() };
+    for (eps, keep) in [(o.abs() * 0.5, true), (o.abs() * 2.0, false)] {
+        judge(sh, "rdp.mixed_magnitude", "simplify", eps, keep, call(|| pos(&ls.simplify(eps))));
+        judge(sh, "rdp.mixed_magnitude", "simplify_idx", eps, keep, call(|| ls.simplify_idx(eps)));
+    }
+    for (eps, keep) in [(area * 0.5, true), (area * 2.0, false)] {
+        judge(sh, "vw.mixed_magnitude", "simplify_vw", eps, keep, call(|| pos(&ls.simplify_vw(eps))));
+        judge(sh, "vw.mixed_magnitude", "simplify_vw_idx", eps, keep, call(|| ls.simplify_vw_idx(eps)));
+        judge(sh, "vw.mixed_magnitude", "simplify_vw_preserve", eps, keep, call(|| pos(&ls.simplify_vw_preserve(eps))));
+    }
+    sh.class("stratum:mixed_magnitude_3_point_line");
+}
+
 pub fn run(ctx: &Ctx, sh: &mut Shard) {
     let thorough = ctx.tier == "thorough";
     start_watchdog(ctx.seed, ctx.shard);
@@ -1424,6 +1472,14 @@ pub fn run(ctx: &Ctx, sh: &mut Shard) {
         CUR_CASE.store(k, std::sync::atomic::Ordering::Relaxed);
         let mut r = Rng::derive(ctx.seed, ctx.shard, k);
         sh.cases += 1;
+        if k % 32 == 7 {
+            let e = r.range(0, 27) as i32;
+            let mut m: Vec<i64> = (0..3).map(|_| r.range(-4096, 4096)).collect();
+            m.sort();
+            let off = (r.range(1, 4096) * if r.chance(1, 2) { 1 } else { -1 }, r.range(-60, -20) as i32);
+            check_mixed3(sh, [(m[0], e), (m[1], e), (m[2], e)], off, r.chance(1, 2), false);
+            continue;
+        }
         let (ig, lat, stratum) = gen_case(&mut r, thorough);
         let eps = gen_eps(&mut r, &ig, &lat);
         // evidence of reach
@@ -1473,6 +1529,11 @@ pub fn run(ctx: &Ctx, sh: &mut Shard) {
 }
 
 pub fn replay(v: &Value, sh: &mut Shard) {
+    if v["kind"].as_str() == Some("mixed3") {
+        let g = |x: &Value| (x[0].as_i64().unwrap(), x[1].as_i64().unwrap() as i32);
+        check_mixed3(sh, [g(&v["xs"][0]), g(&v["xs"][1]), g(&v["xs"][2])], g(&v["off"]), v["vertical"].as_bool().unwrap(), true);
+        return;
+    }
     let ig = IG::from_json(&v["g"]).expect("g");
     let lat = Lat::from_json(&v["lat"]);
     let eps = f64::from_bits(u64::from_str_radix(v["eps"].as_str().expect("eps hex"), 16).expect("eps hex"));
